@@ -39,5 +39,17 @@ PROPS = {
     },
 }
 
+PROPS["C19"] = {
+    "harness": "c19",
+    "props_files": ["C19/Props.v"],
+    "n": {"quick": 120, "thorough": 1500},
+    "level_text": "Theorem (Coq, no axioms): for every stage tree, every ok/error/panic assignment, every sync/async mix and every schedule of the interleaving semantics, the completion callback fires at most once, only after every started stage finished, and exactly once with an error iff some executed stage failed, when all work is done. Tied to the code by running all trees with <= 3 stages plus random larger trees on the real pipeline/worker pool with gate-controlled completion orders and comparing callbacks/completed stages with the model.",
+    "level_note": "Trusted: the action-list model of executeStage/completeStage/complete (validated differentially; lock regions assumed atomic), the fake plan nodes and gates of the harness; real goroutine schedules are sampled, the all-schedules claim is the theorem's.",
+    "rule": "all stage trees with <= 3 stages over {ok,err,panic} x {sync,async} (exhaustive, 474 trees) plus random trees up to depth 3; completion order chosen by the PRNG through gates; non-trivial = >= 3 executed stages, >= 1 async and >= 1 failing or panicking executed stage; distinct = different JSON of (tree, observation)",
+    "trusted": ["partial: free-running goroutine interleavings of the real code are sampled; the schedule quantifier is carried by the theorem over the model whose atomic steps are executeStage (pending++), completeStage (record error, pending--, maybe callback) and pool submission"],
+    "assumptions": ["sync.Mutex regions and atomic counters are atomic steps", "a stage's plan either returns nil, returns an error, or panics (three outcomes)"],
+    "replay_help": "case.tree is the stage tree (o: 0 ok, 1 error, 2 panic; a: async); observed is what the real pipeline did; correspondence_code 1 = callbacks/completed-stage count differ from the model; oracle_code 1 = not exactly one callback, or its error flag differs from 'some executed stage failed', or (without panic) stages were unfinished at the callback, or no callback (hang)",
+}
+
 for _pid in PROPS:
     NOT_APPLICABLE.pop(_pid, None)
